@@ -61,7 +61,7 @@ class C12(Check):
     rule = ('cases = programs over 2-3 emitters x 2-3 listeners x up to 4 slots x 1-2 signals whose slots run scripted actions '
             '(connect/disconnect/emit/destroy listener/destroy emitter, also of themselves), nesting depth <= 4; stream exh = all '
             'action sequences of length <= 2 (quick) / <= 3 (thorough) over a 12-action alphabet executed by a slot inside one '
-            'emission, under 2 surrounding configurations, followed by re-emission and destruction of every object; stream dcd = '
+            'emission, under 2 surrounding configurations, followed by re-emission and destruction of every object (programs whose emission tree exceeds 200 slot invocations are dropped, here and in nest/edge/random); stream dcd = '
             'all words of length <= 4 / <= 6 over {disconnect, connect} x {own slot, pending slot} inside one emission, with and '
             'without a nested re-emission (case split of unlink_slot: k-th disconnect skips k-1 entries already marked); stream '
             'nest = recursive re-emission to the depth limit + a second signal of the same emitter + a slot pending in every '
@@ -213,8 +213,8 @@ class C12(Check):
     def streams(self, tier, rng):
         thorough = tier == 'thorough'
         out = []
-        out.append(Stream('exh', self.exh_cases(3 if thorough else 2), exhaustive=True,
-                          note='all action sequences of length <= %d over a 12-action alphabet inside one emission, 2 surrounding configurations' % (3 if thorough else 2)))
+        out.append(Stream('exh', self.small_enough(self.exh_cases(3 if thorough else 2)), exhaustive=True,
+                          note='all action sequences of length <= %d over a 12-action alphabet inside one emission, 2 surrounding configurations (programs with more than 200 slot invocations are dropped)' % (3 if thorough else 2)))
         # chunks of <= 300 cases: on a broken tree nearly every case of these streams ends in a sanitizer report, and the
         # runner gives up on a stream after 400 restarts
         def chunks(name, cases, note):
